@@ -125,18 +125,22 @@ def _fv(value):
     return ("v", value)
 
 
-def _cmp(op, pv, fvalue, ts_as_text=False):
+def _cmp(op, pv, fvalue, quirk=None):
+    """quirk is never used for an expected answer; it reproduces two *named* behaviours so that a
+    disagreement can be attributed: "text" = timestamps compared as plain text (what happens to objects the
+    library keeps as dictionaries), "parsed-in" = a parsed timestamp is never `in` a list of timestamp strings."""
     kind, fv = _fv(fvalue)
-    # timestamps as instants
-    if is_ts(pv) and not ts_as_text:
+    if is_ts(pv) and quirk != "text":
         if kind == "dt":
-            pv, fv = instant(pv), fv
+            pv = instant(pv)
         elif is_ts(fv):
             pv, fv = instant(pv), instant(fv)
         elif op == "in" and isinstance(fv, list):
+            if quirk == "parsed-in":
+                return False
             pv, fv = instant(pv), [instant(x) if is_ts(x) else x for x in fv]
     elif kind == "dt":
-        raise ValueError("datetime filter value against a non-timestamp property: outside the domain")
+        raise ValueError("datetime filter value against a non-timestamp property or a dictionary-kept object: outside the domain")
     if op == "=":
         return pv == fv
     if op == "!=":
@@ -154,7 +158,7 @@ def _cmp(op, pv, fvalue, ts_as_text=False):
     raise ValueError(op)
 
 
-def holds(flt, obj, ts_as_text=False):
+def holds(flt, obj, quirk=None):
     op = flt["op"]
     if op not in OPS:
         raise ValueError(op)
@@ -164,16 +168,15 @@ def holds(flt, obj, ts_as_text=False):
                 return True
         return False
     for pv in _final_values(obj, flt["prop"].split(".")):
-        if _cmp(op, pv, flt["value"], ts_as_text):
+        if _cmp(op, pv, flt["value"], quirk):
             return True
     return False
 
 
-def matches(filters, obj, text_for=None):
-    """All filters hold.  text_for(obj) -> True switches timestamp comparison to plain text for that
-    object (used only to *name* a known defect, never as the expected answer)."""
-    t = bool(text_for and text_for(obj))
-    return all(holds(f, obj, t) for f in filters)
+def matches(filters, obj, quirk_for=None):
+    """All filters hold.  quirk_for(obj) -> None | "text" | "parsed-in" (see _cmp; attribution only)."""
+    q = quirk_for(obj) if quirk_for else None
+    return all(holds(f, obj, q) for f in filters)
 
 
 # ---- the store model ---------------------------------------------------------------
@@ -218,8 +221,8 @@ class ListModel(object):
                 best = o
         return best
 
-    def query(self, filters=(), text_for=None):
-        return [o for o in self.objs if matches(filters, o, text_for)]
+    def query(self, filters=(), quirk_for=None):
+        return [o for o in self.objs if matches(filters, o, quirk_for)]
 
 
 # ---- navigation as a scan -------------------------------------------------------------
@@ -281,7 +284,8 @@ def selftest():
     assert q("modified", "<=", {"$dt": "2020-01-01T00:00:00.000Z"}) == ["x--1/1"]
     assert q("modified", "in", ["2020-01-01T00:00:00.50Z"]) == ["x--1/2"]
     assert q("type", "=", "y-z") == ["y-z--2/"] and q("type", "!=", "y-z") == ["x--1/1", "x--1/2"]
-    assert [o.get("n") for o in m.query([{"prop": "modified", "op": ">", "value": "2020-01-01T00:00:00.2Z"}], text_for=lambda o: True)] == [1, 2]
+    assert [o.get("n") for o in m.query([{"prop": "modified", "op": ">", "value": "2020-01-01T00:00:00.2Z"}], quirk_for=lambda o: "text")] == [1, 2]
+    assert m.query([{"prop": "modified", "op": "in", "value": ["2020-01-01T00:00:00.50Z"]}], quirk_for=lambda o: "parsed-in") == []
     r1 = {"type": "relationship", "id": "relationship--1", "relationship_type": "uses", "source_ref": "x--1", "target_ref": "y-z--2"}
     r2 = {"type": "relationship", "id": "relationship--2", "relationship_type": "hits", "source_ref": "x--1", "target_ref": "x--1"}
     objs = m.objs + [r1, r2]
